@@ -10,6 +10,7 @@ A6 = bytes([0x61, 0x41, 0x3d, 0x00, 0xe9, 0x69])        # a A = NUL e-acute i   
 A4 = bytes([0x61, 0x41, 0x3d, 0x00])                    # a A = NUL
 A8 = A6 + bytes([0x49, 0xc9])                           # + I, E-acute
 TR = 'tr_TR.ISO-8859-9'
+NVEND = 6                                               # source vendors of the EDIT family (0 = this library, 1..5 foreign), see the executor
 MANDATORY = ('core', 'sizes', 'sequences', 'locale')                  # never skipped by the deadline
 TIMEOUT = 1500                                          # CPU seconds per case line (watchdog in the executor)
 
@@ -185,20 +186,28 @@ def seq_lines(tier):
     """[(case text, expected number of sequences)] -- counts computed here, independently of the executor."""
     out = []
     big = tier != 'quick'
-    # EDIT grid: decoder-filled N (every residue of (N+1)%16 several times) x 1..K adds, both header paths
-    nmax, kmax, step = (80, 40, 4) if big else (40, 20, 3)
-    for lo in range(0, nmax + 1, step):
-        hi = min(nmax, lo + step - 1)
-        out.append((f'editgrid f C {lo} {hi} {kmax}', (hi - lo + 1) * kmax))
-    # EDIT exhaustive contents: (base maxlen, base n, added maxlen, added k, lines' first-index step)
-    for bl, bn, al, ak, per in ([(3, 0, 2, 1, 1), (3, 0, 2, 2, 1), (3, 1, 2, 1, 259), (3, 1, 2, 2, 12), (2, 2, 1, 1, 43)] + ([(2, 2, 2, 2, 1), (3, 1, 2, 3, 4)] if big else [])):
+    # EDIT grid: decoder-filled N (every residue of (N+1)%16 several times) x 0..K adds (0 = plain transcode), both header paths,
+    # x source vendor V of the decoded stream (0 = this library, 1..5 foreign, hand-packed header)
+    nmax, kmax, step = (80, 40, 8) if big else (40, 20, 7)
+    for V in range(NVEND):
+        for lo in range(0, nmax + 1, step):
+            hi = min(nmax, lo + step - 1)
+            out.append((f'editgrid f C {lo} {hi} {kmax} {V}', (hi - lo + 1) * (kmax + 1)))
+    # EDIT exhaustive contents: (base maxlen, base n, added maxlen, added k, lines' first-index step, mode, source vendors)
+    ALLV = list(range(NVEND))
+    spaces = [(3, 0, 2, 1, 1, 'c', ALLV), (3, 0, 2, 2, 1, 'c', ALLV), (3, 1, 2, 1, 259, 'c', ALLV), (2, 2, 1, 1, 43, 'c', ALLV), (3, 1, 2, 2, 12, 'c', [0, 1]),
+              (3, 1, 2, 0, 259, 'f', ALLV), (3, 2, 2, 0, 8, 'c', ALLV)]           # k=0: decode -> write -> decode, every base list
+    if big:
+        spaces += [(2, 2, 2, 2, 1, 'c', [0, 1]), (3, 1, 2, 3, 4, 'c', [0]), (3, 1, 2, 2, 12, 'c', [2, 3, 4, 5]), (3, 2, 2, 0, 8, 'f', [1])]
+    for bl, bn, al, ak, per, mode, vs in spaces:
         nb, nfa = len(strings(A6, bl)), len(nulfree(A6, al))
-        if bn == 0:
-            out.append((f'editenum c C {A6.hex()} {bl} 0 {al} {ak} 0 1', nfa ** ak))
-            continue
-        for lo in range(0, nb, per):
-            hi = min(nb, lo + per)
-            out.append((f'editenum c C {A6.hex()} {bl} {bn} {al} {ak} {lo} {hi}', (hi - lo) * nb ** (bn - 1) * nfa ** ak))
+        for V in vs:
+            if bn == 0:
+                out.append((f'editenum {mode} C {A6.hex()} {bl} 0 {al} {ak} 0 1 {V}', nfa ** ak))
+                continue
+            for lo in range(0, nb, per):
+                hi = min(nb, lo + per)
+                out.append((f'editenum {mode} C {A6.hex()} {bl} {bn} {al} {ak} {lo} {hi} {V}', (hi - lo) * nb ** (bn - 1) * nfa ** ak))
     # REUSE grid: fill N>0, clear, add M>=0 without init, both header paths
     nmax, mmax, step = (40, 40, 3) if big else (20, 20, 2)
     for lo in range(1, nmax + 1, step):
@@ -216,16 +225,18 @@ def seq_lines(tier):
 
 def seq_pred(variant, lst):
     """Named predicate of a failing EDIT / REUSE sequence (for the finding key) and its single-sequence replay case."""
-    fam, _, nn = variant.partition(':N=')
-    N = int(nn or 0)
+    fam = variant.split(':')[0]
+    N = int((re.search(r'N=(\d+)', variant) or [0, 0])[1])
+    V = int((re.search(r'V=(\d+)', variant) or [0, 0])[1])
     m = re.search(r'\.\.\((\d+) entries\)', lst)
     n = int(m.group(1)) if m else (0 if lst.startswith('.') else len(lst.split(',')))
+    K = n - N
     if fam == 'edit':
-        pred = f"adds_onto_decoder_filled_struct,(N+1)%16{'==0' if (N + 1) % 16 == 0 else '!=0'}"
+        pred = ('transcode_of_decoder_filled_struct' if K == 0 else f"adds_onto_decoder_filled_struct,(N+1)%16{'==0' if (N + 1) % 16 == 0 else '!=0'}") + (',foreign_source_vendor' if V > 0 else '')
     else:
-        pred = f"refill_after_clear_without_init,M{'=0' if n - N == 0 else '>0'}"
-    one = None if '..(' in lst else f'{fam}1 MODE LOC {N} {lst}'
-    return fam, pred, one, N, n - N
+        pred = f"refill_after_clear_without_init,M{'=0' if K == 0 else '>0'}"
+    one = None if '..(' in lst else f'{fam}1 MODE LOC {N} {lst}' + (f' {V}' if fam == 'edit' else '')
+    return fam, pred, one, N, K
 
 
 def locate_died(exe, vendor, case):
@@ -434,7 +445,7 @@ def run(tier):
         'size_cases': {'counts': counts, 'counts_with_embedded_nul': countsz, 'lengths': lens, 'other': ['all256', 'fold256 (256 entries X"=v" x all 255 one-byte tags)']},
         'totals': dict(tot, max_entry_length_round_tripped=maxlen_rt),
         'locales': locs,
-        'call_sequences': dict(seq_stats, families='EDIT: decode N entries, then 1..K vorbis_comment_add/_add_tag onto the decoder-filled structure, write, decode, compare; REUSE: fill N>0, vorbis_comment_clear, add M>=0 without vorbis_comment_init, write, decode, compare'),
+        'call_sequences': dict(seq_stats, families='EDIT: decode N entries from a stream written by this library or by a FOREIGN vendor (hand-packed header: AcmeCodec..., empty, 300 bytes, NUL/0xff bytes), then 0..K vorbis_comment_add/_add_tag onto the decoder-filled structure, write, decode, compare incl. vendor == the vendor of this library; REUSE: fill N>0, vorbis_comment_clear, add M>=0 without vorbis_comment_init, write, decode, compare'),
         'batches_skipped_by_deadline': skipped,
         'second_locale_pass': loc_pass,
         'vendor_expected': vendor,
@@ -447,7 +458,7 @@ def run(tier):
         f'(happened {tot["amb"]} times: T"=" contains no NUL, so both readings coincide); entries built directly in the structure are zero-terminated after their explicit length, as the decode library does',
         'zero termination of decoded entries (user_comments[i][len]==0) is judged because doc/libvorbis/vorbis_comment.html promises it; user_comments[count]==NULL is not judged',
         'REUSE family: a structure emptied by vorbis_comment_clear is required to behave like a freshly initialised one for later vorbis_comment_add calls and header output (the documentation only says the storage is freed; the implementation zeroes the structure and applications reuse it per track)',
-        'EDIT family: vorbis_comment_add / _add_tag are applied to the structure filled by vorbis_synthesis_headerin (tag-editor use); its vendor must survive the adds',
+        'EDIT family: vorbis_comment_add / _add_tag are applied to the structure filled by vorbis_synthesis_headerin (tag-editor / transcode use); the structure keeps reporting the source stream\'s vendor (as a C string) until it is cleared, but any header this library writes from it must carry the library\'s own vendor string (doc/libvorbis/vorbis_comment.html: "Libvorbis will fill this in itself when encoding a comment packet from this structure")',
         'indices 0..count+1 only; negative indices and NULL tags are outside the property',
         'structures built by hand are freed by hand (doc: do not mix with vorbis_comment_clear); vorbis_comment_clear is used for API-built and decoded structures',
         locnote,
